@@ -282,3 +282,110 @@ pub(crate) fn credit_monitor_pair(limit: u32) -> (ChannelCreditMonitor, ChannelC
     let returner = ChannelCreditReturner { monitor: Arc::downgrade(&monitor.0), to_return: 0, return_fut: None };
     (monitor, returner)
 }
+
+/// Verification hooks (add-only, compiled only with `--cfg remoc_verif`).
+#[cfg(remoc_verif)]
+#[allow(missing_docs, private_interfaces, dead_code, clippy::all)]
+pub mod verif_hooks {
+    use super::*;
+    use std::future::Future;
+
+    pub fn send_pair(initial: u32) -> (CreditProvider, CreditUser) {
+        credit_send_pair(initial)
+    }
+
+    /// (credits, closed, number of registered waiters)
+    pub fn provider_state(p: &CreditProvider) -> (u32, Option<bool>, usize) {
+        let inner = p.0.lock().unwrap();
+        (inner.credits, inner.closed, inner.notify.len())
+    }
+
+    pub fn provider_set(p: &CreditProvider, credits: u32, closed: Option<bool>) {
+        let mut inner = p.0.lock().unwrap();
+        inner.credits = credits;
+        inner.closed = closed;
+    }
+
+    pub fn provider_add_waiter(p: &CreditProvider) -> oneshot::Receiver<()> {
+        let (tx, rx) = oneshot::channel();
+        p.0.lock().unwrap().notify.push(tx);
+        rx
+    }
+
+    pub fn provide<A, B>(p: &CreditProvider, credits: u32) -> Result<(), ChMuxError<A, B>> {
+        p.provide(credits)
+    }
+
+    pub fn close(p: &CreditProvider, gracefully: bool) {
+        p.close(gracefully)
+    }
+
+    pub fn user_set_override(u: &mut CreditUser, v: bool) {
+        u.override_graceful_close = v;
+    }
+
+    pub fn try_request(u: &CreditUser, req: u32) -> Result<Option<AssignedCredits>, SendError> {
+        u.try_request(req)
+    }
+
+    pub fn request<'a>(
+        u: &'a CreditUser, req: u32, min_req: u32,
+    ) -> impl Future<Output = Result<AssignedCredits, SendError>> + 'a {
+        u.request(req, min_req)
+    }
+
+    pub fn assigned_available(a: &AssignedCredits) -> u32 {
+        a.available()
+    }
+
+    pub fn assigned_take(a: &mut AssignedCredits, n: u32) {
+        a.take(n)
+    }
+
+    pub fn assigned_default() -> AssignedCredits {
+        AssignedCredits::default()
+    }
+
+    pub fn monitor_pair(limit: u32) -> (ChannelCreditMonitor, ChannelCreditReturner) {
+        credit_monitor_pair(limit)
+    }
+
+    /// (used, limit)
+    pub fn monitor_state(m: &ChannelCreditMonitor) -> (u32, u32) {
+        let inner = m.0.lock().unwrap();
+        (inner.used, inner.limit)
+    }
+
+    pub fn monitor_set_used(m: &ChannelCreditMonitor, used: u32) {
+        m.0.lock().unwrap().used = used;
+    }
+
+    pub fn use_credits<A, B>(m: &ChannelCreditMonitor, credits: u32) -> Result<UsedCredit, ChMuxError<A, B>> {
+        m.use_credits(credits)
+    }
+
+    pub fn used_credit(v: u32) -> UsedCredit {
+        UsedCredit(v)
+    }
+
+    pub fn used_credit_value(c: &UsedCredit) -> u32 {
+        c.0
+    }
+
+    /// (to_return, a deferred return future is pending)
+    pub fn returner_state(r: &ChannelCreditReturner) -> (u32, bool) {
+        (r.to_return, r.return_fut.is_some())
+    }
+
+    pub fn returner_set_to_return(r: &mut ChannelCreditReturner, v: u32) {
+        r.to_return = v;
+    }
+
+    pub fn start_return(r: &mut ChannelCreditReturner, credit: UsedCredit, remote_port: u32, tx: &mpsc::Sender<PortEvt>) {
+        r.start_return(credit, remote_port, tx)
+    }
+
+    pub fn return_flush<'a>(r: &'a mut ChannelCreditReturner) -> impl Future<Output = ()> + 'a {
+        r.return_flush()
+    }
+}
